@@ -1,10 +1,10 @@
 package main
 
 import (
-	"strings"
 	"encoding/json"
 	"fmt"
 	"os"
+	"strings"
 	"time"
 
 	"verif/gosym/eng"
